@@ -1,4 +1,5 @@
 import GqlVerif.Props.C01
+import GqlVerif.Proofs.C01EndToEnd
 open GqlVerif.C01
 #print axioms accepts_mono
 #print axioms conforming_int_accepted
@@ -28,3 +29,10 @@ open GqlVerif.C01
 #print axioms overlap_loses_key
 #print axioms overlap_loses_key_silently
 #print axioms disjoint_control
+-- end to end from the code generator, for tree-shaped operations (Proofs/C01EndToEnd*.lean)
+#print axioms GqlVerif.C01.E2E.tree_items_shape
+#print axioms GqlVerif.C01.E2E.tree_module_shape
+#print axioms GqlVerif.C01.E2E.fieldOf_shape
+#print axioms GqlVerif.C01.E2E.tree_accepts
+#print axioms GqlVerif.C01.E2E.tree_lossless
+#print axioms GqlVerif.C01.E2E.tree_roundtrip
